@@ -48,6 +48,8 @@ func verifLeaves(v reflect.Value, f func(reflect.Value)) {
 		for i := 0; i < v.Len(); i++ {
 			verifLeaves(v.Index(i), f)
 		}
+	case reflect.Bool:
+		f(v)
 	case reflect.Uint8, reflect.Uint16, reflect.Uint32, reflect.Uint64, reflect.Uint, reflect.Int, reflect.Int8, reflect.Int16, reflect.Int32, reflect.Int64:
 		f(v)
 	}
@@ -69,7 +71,13 @@ func verifFill(ptr interface{}, in []uint64) int {
 func verifRead(ptr interface{}) []uint64 {
 	var out []uint64
 	verifLeaves(reflect.ValueOf(ptr).Elem(), func(l reflect.Value) {
-		if l.CanUint() {
+		if l.Kind() == reflect.Bool {
+			if l.Bool() {
+				out = append(out, 1)
+			} else {
+				out = append(out, 0)
+			}
+		} else if l.CanUint() {
 			out = append(out, l.Uint())
 		} else {
 			out = append(out, uint64(l.Int()))
